@@ -14,7 +14,7 @@ SPEC = {
         "fuel (parse_total), never asks the lexer for a token past the one after EOF (in bounds), every error is "
         "a positioned lexer/parser error (C19_parse_errors, full since the concatStrings repair: fix commit 3f38189; "
         "the old behaviour is kept as C19_old_concat_runtime_iff on the pre-fix fact value). Not in the model: Go's stack limit (recursion depth is "
-        "only exercised by the stress oracle; two known findings), l.line/l.col, AST contents beyond what decides the outcome"
+        "only exercised by the stress oracle; the lexer's self-recursion was repaired (fix commit e24fab1), the parser's nesting depth stays a known finding), l.line/l.col, AST contents beyond what decides the outcome"
     ),
     "technique": "Lean proof over a byte-level lexer model and a fuel-indexed model of the recursive-descent grammar (program logic over the parser monad, induction on fuel) + differential token streams / parse outcomes + direct outcome oracle",
     "trusted": [
